@@ -273,3 +273,6 @@ PROPS["C09"] = {
            E("has_backup", "p_backup", "lemma_has_backup"), E("backup_path", "p_backup", "lemma_backup_path"),
            E("handle_new", "p_handle", "lemma_handle_new")],
 }
+
+PROPS["C01"]["e2"] += [E("partition_native", "p_parblock", "lemma_partition_native")]
+PROPS["C06"]["e2"] += [E("partition_native", "p_parblock", "lemma_partition_native", tier="thorough")]
